@@ -143,7 +143,7 @@ CLAIMED: dict[str, tuple[str, str, str, str]] = {
             "do not shift; header-sensitive linters get no insertion at the top.",
             TECH),
     "C11": ("DESIGN.md §5 C11",
-            "spec/Robust.tla enumerates fault sequences (35 fault operations x 5 seed kinds, length <=2 quick / "
+            "spec/Robust.tla enumerates fault sequences (36 fault operations x 5 seed kinds, length <=2 quick / "
             "<=3 thorough); the harness instantiates each with bytes/positions drawn from VERIF_SEED, places the "
             "damaged file among healthy siblings and runs Linter.lint (all rules, H1 failure tap on every "
             "swallowed exception) plus rotating CLI commands; RobustTrace.tla judges Hang / Crash / RuleFailed / "
